@@ -10,6 +10,7 @@ import numpy as np
 import common
 from common import Run, model
 import bookgen, bookrun
+from checks import c03
 
 RULE = ('random workbooks of one or two books (the second book has a sheet of the same name as the first, with a different used area) with 2-3 sheets, names, array formulas and (some) a whole-column reference, written to '
         '.xlsx; output sets = random non-empty sets of 1-3 cells / rectangles (thorough: also every single populated cell). '
@@ -19,7 +20,7 @@ RULE = ('random workbooks of one or two books (the second book has a sheet of th
 
 def cross_book_name(case):
     """a formula refers to a defined name of another workbook (resolved to #REF! when its own book is compiled first)"""
-    return bool(case.get('cross_book_name')) and '#REF!' in case.get('what', '')
+    return bool(case.get('cross_book_name')) and ('#REF!' in case.get('what', '') or bool(case.get('depends_on_cross_book_name')))
 
 
 SIGNATURES = {'cross_book_name': cross_book_name}
@@ -64,6 +65,7 @@ def check(run):
             case0 = {'workbook': {k_: (str(v) if isinstance(v, bookgen.Err) else v) for k_, v in wb.to_dict().items()}}
             case0['cross_book_name'] = any(kk == 'name' and wb.names[x][0] != wb.sheets[a_[0]][0]
                                            for a_, ct in wb.cells.items() if ct[0] != 'v' for kk, x in wb.deps(ct[-1]))
+            taint = c03.tainted_cells(wb) if case0['cross_book_name'] else set()
             addrs = [a for a in wb.addresses()]
             spill = {}
             for (s, r, c), cont in wb.cells.items():
@@ -127,6 +129,7 @@ def check(run):
                                 row.append(vv if vv is not None else 'absent')
                             got.append(row)
                     if got != exp:
+                        case = dict(case, depends_on_cross_book_name=any((o[0], i, j) in taint for i in range(o[1], o[2] + 1) for j in range(o[3], o[4] + 1)))
                         run.violation('output %s is %s in the model loaded from the outputs and %s in the full model' % (
                             key, [[bookrun.show(x) if x not in ('absent',) else x for x in r] for r in got],
                             [[bookrun.show(x) for x in r] for r in exp]), dict(case, output=key))
